@@ -420,3 +420,20 @@ Proof.
   - intro t. do 2 (destruct t as [|t]; [right; eexists; reflexivity|]). left. reflexivity.
   - repeat split.
 Qed.
+
+(* ---------- what Referrers() returns through the tag schema ---------- *)
+
+Lemma listing_is_fold sg r0 st0 tr s :
+  run sg (init r0 st0) tr = Some s ->
+  NoDup (keys (list_referrers (reg s) 0)) /\
+  Forall (fun d => nonempty d = true) (list_referrers (reg s) 0) /\
+  (forall k, In k (keys (list_referrers (reg s) 0)) <->
+             member_after k (memb r0 k) (map (arg s) (lin s)) = true) /\
+  (forall art d, In d (list_referrers (reg s) art) -> art = 0 \/ dart d = art).
+Proof.
+  intro H. destruct (reachable_inv _ _ _ _ _ H) as [I V].
+  destruct (list_referrers_spec (reg s) 0) as (A & B & _ & D).
+  split; auto. split; auto. split.
+  - intro k. rewrite D. rewrite <- (v_set _ _ V k). unfold memb, idx. reflexivity.
+  - intros art d Hd. destruct (list_referrers_spec (reg s) art) as (_ & _ & C & _). auto.
+Qed.
